@@ -4,6 +4,7 @@
      class outside         : a statement not wholly inside the range (and containing no in-range statement): unchanged
      class inrange         : a statement wholly inside the range: equal to its text in the whole-file run
      class inrange-anon    : same, but inside an anonymous function that sits in an expression of an out-of-range statement (known class)
+     class inrange-collapsed-parent: in range, differs from the whole-file run only because that run collapses its out-of-range parent (known class)
      class outside-endquirk: the range ends between what full_moon reports as the statement's end and its closing bracket (known class)
    EDGE <case> <prefix ok> <suffix ok> <affected statements>;  COUNT <case> <stmts in> <stmts out> <ignored> *)
 open Util
@@ -19,6 +20,7 @@ let handle line = match words line with
       match cls with
       | "inrange-anon" -> bump known "anonymous-function"
       | "outside-endquirk" -> bump known "end-position"; Hashtbl.replace quirk_cases id ()
+      | "inrange-collapsed-parent" -> bump known "collapsed-parent"
       | _ -> report (cls ^ ":" ^ path) id
     end else if !samples < 5 && cls <> "outside" && SS.length exp > 20 then (incr samples; Printf.printf "SAMPLE %s %s %s %s\n" id path cls exp)
   | ["EDGE"; id; p; s; _] -> edges := (id, p, s) :: !edges
